@@ -23,11 +23,11 @@ pub fn prop() -> Prop {
     Prop {
         id: "C20",
         parts: vec![
-            Part { name: "dgram", case: dgram::dgram_case, quick: 16_000, thorough: 800_000 },
-            Part { name: "perm", case: dgram::perm_case, quick: 4_000, thorough: 200_000 },
-            Part { name: "tcp", case: tcpc::tcp_case, quick: 2_500, thorough: 125_000 },
-            Part { name: "encoder", case: enc::enc_case, quick: 5_000, thorough: 250_000 },
-            Part { name: "adversarial", case: enc::adv_case, quick: 4_000, thorough: 200_000 },
+            Part { name: "dgram", case: dgram::dgram_case, quick: 30_000, thorough: 1_500_000 },
+            Part { name: "perm", case: dgram::perm_case, quick: 6_000, thorough: 300_000 },
+            Part { name: "tcp", case: tcpc::tcp_case, quick: 4_000, thorough: 200_000 },
+            Part { name: "encoder", case: enc::enc_case, quick: 10_000, thorough: 500_000 },
+            Part { name: "adversarial", case: enc::adv_case, quick: 10_000, thorough: 500_000 },
         ],
         phases: vec![dgram::perm_phase],
         smoltcp_panic_is_violation: true,
